@@ -1219,6 +1219,12 @@ func Run(r *common.Run) error {
 				executed++
 				continue
 			}
+			pendN, pendMode := 0, ""
+			if len(f) == 10 && f[0] == "C05" && f[1] == "pend" {
+				pendN, _ = strconv.Atoi(f[2])
+				pendMode = f[3]
+				f = append([]string{"C05", "tx"}, f[4:]...)
+			}
 			if len(f) != 8 || f[0] != "C05" || f[1] != "tx" {
 				continue
 			}
@@ -1240,7 +1246,10 @@ func Run(r *common.Run) error {
 				continue // a line that was clipped for the report
 			}
 			cl.toks = ts
-			if scenario == "" && len(lines) == 1 {
+			if pendN > 0 {
+				c.pending(cfg, cl, pendN, pendMode)
+				executed++
+			} else if scenario == "" && len(lines) == 1 {
 				c.one(cfg, cl, "replay")
 				executed++
 			}
@@ -1308,6 +1317,10 @@ func Run(r *common.Run) error {
 	for _, cfg := range cfgs {
 		c.queuedCorpus(cfg)
 	}
+	r.Mark("case requests with the same id are still waiting for their response")
+	for _, cfg := range cfgs {
+		c.pendingCorpus(cfg)
+	}
 	r.Mark("case one write of the transport answered with a fault")
 	for _, cfg := range cfgs {
 		c.wfaultCorpus(cfg)
@@ -1358,6 +1371,7 @@ func Run(r *common.Run) error {
 		c.behind(cfg, pickS(rnd, []string{"fail", "finish", "twfail", "encfail"}), rnd.Intn(k+1), k, toks, cl)
 	}
 	c.queuedRandom(rnd, r.Pick(150, 2500))
+	c.pendingRandom(rnd, r.Pick(150, 2500))
 	nW := r.Pick(200, 3000)
 	for i := 0; i < nW; i++ {
 		cfg := cfgs[rnd.Intn(len(cfgs))]
